@@ -26,7 +26,7 @@ var sim *vsim.Sim
 
 func TestMain(m *testing.M) {
 	vsim.Init()
-	sim = vsim.New(3)
+	sim = vsim.NewLookalike()
 	os.Exit(m.Run())
 }
 
@@ -54,6 +54,9 @@ type Doc struct {
 	// Extras: properties that merely *name* another document (partOf, context, url, origin…): strings the serving host
 	// wrote, which give no authority over the named location
 	Extras    []Link `json:"extras,omitempty"`
+	// HeaderExtras: response headers with which the serving host merely *names* another location (Content-Location,
+	// Link rel=canonical, Location on a 200 …): no authority over it either
+	HeaderExtras []Link `json:"header_extras,omitempty"`
 	Redirect  bool   `json:"redirect,omitempty"` // this URL redirects to document Target (Links unused)
 	RedirTo   int    `json:"redir_to,omitempty"`
 	RedirForm string `json:"redir_form,omitempty"` // abs | path
@@ -189,7 +192,19 @@ func (c Case) install(prefix string) {
 			continue
 		}
 		b, _ := json.Marshal(c.object(i, prefix, 2, d.Host))
-		sim.Set(d.Host, target, vsim.JSON(expandPorts(string(b))))
+		if len(d.HeaderExtras) == 0 {
+			sim.Set(d.Host, target, vsim.JSON(expandPorts(string(b))))
+			continue
+		}
+		raw := "HTTP/1.1 200 OK\r\nContent-Type: application/activity+json\r\n"
+		for _, h := range d.HeaderExtras {
+			value := c.urlOf(h.Target, prefix)
+			if h.Key == "Link" {
+				value = "<" + value + ">; rel=\"canonical\""
+			}
+			raw += h.Key + ": " + value + "\r\n"
+		}
+		sim.Set(d.Host, target, &vsim.Route{Raw: expandPorts(raw + "\r\n" + string(b))})
 	}
 	for h := 0; h < sim.Hosts(); h++ {
 		sim.Set(h, prefix+"/resident", vsim.JSON(`{"id":"https://%REQHOST%`+prefix+`/resident","type":"Person","name":"resident ⟦%REQHOST%⟧","preferredUsername":"resident","x-stamp":"⟦%REQHOST%⟧"}`))
@@ -432,6 +447,10 @@ func gen(t *rapid.T) Case {
 				}
 			}
 			d.Links = append(d.Links, l)
+		}
+		for nh := rapid.SampledFrom([]int{0, 0, 0, 1, 2}).Draw(t, "nheaderextras"); nh > 0; nh-- {
+			d.HeaderExtras = append(d.HeaderExtras, Link{Key: rapid.SampledFrom([]string{"Content-Location", "Content-Location", "content-location", "Link", "Location", "X-Original-Url", "Content-Base"}).Draw(t, "headerkey"),
+				Target: rapid.IntRange(0, n-1).Draw(t, "headertarget")})
 		}
 		ne := rapid.SampledFrom([]int{0, 0, 1, 2}).Draw(t, "nextras")
 		for k := 0; k < ne; k++ {
